@@ -19,11 +19,11 @@ SPEC = {
     "driver": "drv_c08",
     "harness": "c08",
     "race": True,
-    "theorems": ["C08_written_before_done", "C08_done_once_per_scheduling", "C08_store_is_last_write",
-                 "C08_only_stop_can_fail", "C08_stop_waits_partial", "C08_ok_partial", "C08_stop_waits_state_partial",
-                 "C08_racing_enqueue_all_or_nothing_partial", "C08_no_block_forever_partial", "C08_window_counter",
-                 "C08_racing_enqueue_witness", "C08_stop_waits_witness", "C08_no_block_forever_witness",
-                 "C08_statement_witness", "C08_skeleton_Enqueue", "C08_skeleton_startBatchWriter",
+    "theorems": ["C08_ok", "C08_written_before_done", "C08_done_once_per_scheduling", "C08_store_is_last_write",
+                 "C08_stop_waits", "C08_stop_waits_state", "C08_racing_enqueue_all_or_nothing",
+                 "C08_late_enqueue_backs_out", "C08_no_block_forever_partial", "C08_statement_safety",
+                 "C08_old_racing_enqueue_witness", "C08_old_stop_waits_witness", "C08_old_no_block_forever_witness",
+                 "C08_old_statement_witness", "C08_skeleton_Enqueue", "C08_skeleton_startBatchWriter",
                  "C08_skeleton_StopBatchWriter", "C08_skeleton_Flush", "C08_skeleton_runBatchWriter",
                  "C08_skeleton_collector_Add", "C08_skeleton_collector_Commit"],
     "trusted_base": ["hand-written protocol model Hive/Model/BatchWriter.lean of kvstore/batch_writer.go + batch_collector.go, tied by (a) the trace predicate evaluated on traces of the real code, (b) the witness schedules replayed on the real code with trace equality, (c) regenerated synchronisation skeletons",
@@ -34,10 +34,10 @@ SPEC = {
                  "store errors (Batched()/Commit() failing => writer panics), Int32 overflow of scheduledCount and batch size 0 are NOT modelled",
                  "BatchWriteObject implementations are the harness's (flag test-and-set, version counter)"],
     "manifest": {
-        "text": "Protocol model (Hive.Conc.Sys) of BatchedWriter Enqueue/Stop/Flush/writer goroutine/collector with arbitrary queue size, batch size and thread pool; the property is the decidable trace predicate Spec.BatchWriter.ok/okFinal. Full-strength theorems over every reachable configuration: C08_written_before_done, C08_done_once_per_scheduling, C08_store_is_last_write, C08_only_stop_can_fail. Partial (hypothesis: no producer between its running check and scheduledCount.Add(1) when Stop clears running, ghost flag raced=false, C08_window_counter): C08_stop_waits_partial, C08_ok_partial, C08_stop_waits_state_partial, C08_racing_enqueue_all_or_nothing_partial, C08_no_block_forever_partial (no reachable deadlock; eventual progress under fairness not formalised). The code violates the full statement (def C08_statement) in that window: C08_racing_enqueue_witness, C08_stop_waits_witness, C08_no_block_forever_witness, C08_statement_witness are proved schedules of the model, and the same schedules are forced on the real code (verif yield point in Enqueue, BatchWriteScheduled callback) with trace equality against the model's witness trace. Tie: every run's event trace (harness BatchWriteObjects + store wrapper, one mutex-ordered log) is judged by the Lean driver with the same predicate and by an independent index-based Go oracle; regenerated synchronisation skeletons (C08_skeleton_*).",
-        "note": "Trusted: Lean kernel; hand-written model of batch_writer.go/batch_collector.go (tied by trace predicate on real traces, witness replay, skeleton regeneration); Go sync primitive semantics as modelled; store errors, counter overflow, batch size 0 not modelled; liveness only as deadlock freedom. One defect fixed (writeWg.Add before go), three recorded known findings share the Enqueue/Stop window.",
+        "text": "Protocol model (Hive.Conc.Sys) of BatchedWriter Enqueue/Stop/Flush/writer goroutine/collector with arbitrary queue size, batch size and thread pool; the property is the decidable trace predicate Spec.BatchWriter.ok/okFinal. Full-strength theorems over every reachable configuration, no hypothesis on the schedule: C08_ok (no check of the predicate ever fails), C08_written_before_done, C08_done_once_per_scheduling, C08_store_is_last_write, C08_stop_waits, C08_stop_waits_state, C08_racing_enqueue_all_or_nothing (okFinal once the writer has terminated), C08_late_enqueue_backs_out, C08_statement_safety. Partial: C08_no_block_forever_partial proves that no reachable configuration is a deadlock; eventual progress of every blocked call under fair scheduling (third clause of C08_statement) is not formalised. Two defects were repaired (writeWg.Add before go; Enqueue counts before it checks running); the old Enqueue protocol is kept as sysOld with proved violating schedules C08_old_racing_enqueue_witness, C08_old_stop_waits_witness, C08_old_no_block_forever_witness, C08_old_statement_witness. Tie: every run's event trace (harness BatchWriteObjects + store wrapper, one mutex-ordered log) is judged by the Lean driver with the same predicate and by an independent index-based Go oracle; the three formerly failing schedules are forced on the real code (verif yield point in Enqueue, BatchWriteScheduled callback) and must reproduce, per participant, the model's trace on the corresponding Lean schedule; regenerated synchronisation skeletons (C08_skeleton_*).",
+        "note": "Trusted: Lean kernel; hand-written model of batch_writer.go/batch_collector.go (tied by trace predicate on real traces, forced-schedule replay, skeleton regeneration); Go sync primitive semantics (sequentially consistent atomics, Once, Mutex, WaitGroup, buffered channels, select) as modelled; store errors, counter overflow, batch size 0 not modelled; liveness only as deadlock freedom.",
         "technique": "Lean 4 inductive invariants over an interleaving semantics with arbitrary thread pools + decidable trace predicate evaluated on recorded traces + forced-schedule replay",
     },
     "assumptions": ["producer identifiers distinct; every thread starts outside a call (Init)",
-                    "_partial theorems: no producer between its running check and scheduledCount.Add(1) when Stop clears running (ghost flag raced = false)"],
+                    "a writer token is in the pool (C08_no_block_forever_partial)"],
 }
